@@ -92,6 +92,10 @@ type Cfg struct {
 	OneCPU bool `json:"gomaxprocs_1"`
 	// FixedLen: the real shell's POST /o declares a (huge) Content-Length instead of being chunked
 	FixedLen bool `json:"shell_output_with_content_length"`
+	// BodiedIn: the real shell's GET /i carries a chunked request body that never ends.  Only
+	// settable through C12_FORCE: without full duplex net/http will not send such a client anything
+	// before its body has ended, so its input stream cannot work and nothing is promised about it
+	BodiedIn bool `json:"shell_input_request_with_unfinished_body"`
 }
 
 func (c Cfg) sig() string {
@@ -132,6 +136,8 @@ func makeCfg(rng *rand.Rand, i, rot int) Cfg {
 			c.OneCPU = v == "true"
 		case "fixedlen":
 			c.FixedLen = v == "true"
+		case "bodiedin":
+			c.BodiedIn = v == "true"
 		}
 	}
 	return c
@@ -200,6 +206,9 @@ func makeCfg0(rng *rand.Rand, i, rot int) Cfg {
 			// one case in ten: the shell ends because its input connection goes away while the
 			// client of its output request stays connected and silent, on one CPU
 			c.Ending, c.Hold, c.OneCPU = "in-close", true, true
+		}
+		if c.BodiedIn && (c.Ending == "in-close" || c.Ending == "both") {
+			c.Ending = []string{"out-end", "out-close"}[rng.IntN(2)] // the input client is the one that lingers
 		}
 		// half of the shells whose output stream is not ended properly upload with a declared length
 		if c.Ending != "out-end" && (rng.IntN(2) == 0 || i%10 == 6) {
@@ -530,6 +539,7 @@ type env struct {
 	heldRefusedOut int       // refused /o requests whose client is still connected
 	nRefusedOut    int       // refused /o requests made so far in this case
 	heldShellOut   bool      // the ended shell's own /o request is still connected
+	heldBodied     int       // requests with an unasked-for, unfinished body whose client is still connected
 }
 
 // refusedConn: what the client of a refused request does with its connection.
@@ -885,6 +895,9 @@ func (e *env) preJunk() bool {
 		if !e.refusedAttempts(junkKinds(c.Junk), "in", id) {
 			return false
 		}
+		if c.Junk == "several" && c.Hold {
+			e.bodiedRequests("/i/" + id) // the last one is a duplicate input stream: refused
+		}
 		in.Close()
 		if _, _, ok := e.notice(`Shell is gone`, mark, boundNotice*e.mult); !ok {
 			e.res.inconclusive("no 'Shell is gone' after the throw-away input was closed")
@@ -1151,7 +1164,7 @@ func (e *env) fullShell() {
 	markFirst := e.s.P.CleanLen()
 	switch c.Order {
 	case "i-o":
-		if in, err = crs.OpenIn(e.addr, "/i/"+id); err == nil {
+		if in, err = e.openRealIn("/i/" + id); err == nil {
 			e.keep(in)
 			t.reader(in)
 			_, _, ok := e.notice(`Input connected: ID "`+regexp.QuoteMeta(id)+`"`, markFirst, boundNotice*e.mult)
@@ -1258,7 +1271,7 @@ func (e *env) fullShell() {
 			t.mu.Unlock()
 		}
 	case "o-i":
-		in, err = crs.OpenIn(e.addr, "/i/"+id)
+		in, err = e.openRealIn("/i/" + id)
 		if err == nil {
 			e.keep(in)
 			t.reader(in)
@@ -1379,6 +1392,45 @@ func (e *env) fullShell() {
 			out.Close()
 		}
 	})
+}
+
+// openRealIn opens the real shell's input request, with an unasked-for,
+// never-ending request body if the case says so.
+func (e *env) openRealIn(target string) (*crs.InStream, error) {
+	if e.cfg.BodiedIn {
+		e.res.count("shells_whose_input_request_has_an_unfinished_body", 1)
+		return crs.OpenInBody(e.addr, target)
+	}
+	return crs.OpenIn(e.addr, target)
+}
+
+// bodiedRequests: requests to endpoints that read no body (the callback
+// script, a file, a refused input stream) which nevertheless bring one and
+// never finish it.  Their clients stay connected for the rest of the run.
+func (e *env) bodiedRequests(refusedInTarget string) {
+	targets := []string{"/c", "/f.txt", "/no-such-file"}
+	if refusedInTarget != "" {
+		targets = append(targets, refusedInTarget)
+	}
+	for _, tg := range targets {
+		c, err := hk.Dial(e.addr, "")
+		if err != nil {
+			e.tl.add("JUNK  bodied GET %s failed: %v", tg, err)
+			continue
+		}
+		cc := connCloser{c}
+		e.keep(cc)
+		fmt.Fprintf(c, "GET %s HTTP/1.1\r\nHost: fake.shell\r\nTransfer-Encoding: chunked\r\n\r\n5\r\nhello\r\n", tg)
+		// the answer arrives (these endpoints answer at once); the client then just sits there
+		c.SetReadDeadline(time.Now().Add(boundNotice * e.mult))
+		buf := make([]byte, 4096)
+		n, _ := c.Read(buf)
+		c.SetReadDeadline(time.Time{})
+		e.tl.add("JUNK  GET %s with an unfinished chunked body: %d bytes of answer, client stays connected", tg, n)
+		e.held = append(e.held, "GET "+tg+" (unasked-for request body not finished)")
+		e.heldBodied++
+		e.res.count("junk_requests_with_unfinished_unasked_body", 1)
+	}
 }
 
 // openRealOut opens the real shell's output request: chunked, or with a
@@ -1552,6 +1604,10 @@ func (e *env) afterEnd(markEnd int, dropConns func()) {
 		dropConns()
 	} else {
 		res.count("hold_runs", 1)
+		if c.BodiedIn && c.Kind == "full" && c.Ending != "in-close" && c.Ending != "both" {
+			e.heldBodied++
+			e.held = append(e.held, "the ended shell's own GET /i (unasked-for request body not finished)")
+		}
 		if c.Ending == "in-close" {
 			e.heldShellOut = true
 			e.held = append(e.held, "the ended shell's own POST /o (request body not finished)")
@@ -1572,6 +1628,8 @@ func (e *env) afterEnd(markEnd int, dropConns func()) {
 		if !exited {
 			key := "does-not-exit-after-one-line"
 			switch {
+			case e.heldBodied > 0:
+				key += ":request-with-unasked-unfinished-body-still-connected"
 			case e.heldRefusedOut > 0:
 				key += ":refused-output-request-still-connected"
 			case e.heldShellOut:
